@@ -14,6 +14,7 @@ import (
 	"mellium.im/xmpp/jid"
 	"mellium.im/xmpp/websocket"
 	"verif.sim/simrt"
+	"verif.sim/simrt/simnet"
 )
 
 // C01 — stream features are negotiated only when allowed, in order, at most once.
@@ -401,6 +402,13 @@ func runC01(rc *RC) {
 		})
 	case 2:
 		// scripted initiator: selects out of order, twice, unadvertised, informational, unknown
+		// a sixth of these runs: one of the receiver's first writes fails (the one that carries the features list, say)
+		// while the initiator does not wait for the list before it sends its first selection
+		pipeline := ch.Chance("faults", 1, 6)
+		if pipeline {
+			S.conn.Conn.WriteErrAt, S.conn.Conn.WriteErr, S.conn.Conn.WritePartial, S.conn.Conn.WriteErrOnce = ch.Range("faults", 1, 3), simnet.ErrInjected, []int{0, 0, 7, 1 << 30}[ch.Int("faults", 4)], ch.Chance("faults", 1, 2)
+			rc.Fire("writeerr-plan")
+		}
 		rc.Spawn("script", func() {
 			out := S.conn.Conn.Out()
 			io.WriteString(C.conn, hdr(origin.String(), "example.net"))
@@ -409,6 +417,9 @@ func runC01(rc *RC) {
 			for step := 0; step < 10; step++ {
 				// wait for the next feature list (or the end)
 				simrt.WaitUntil("script:list", func() bool {
+					if pipeline && step == 0 {
+						return true
+					}
 					return sDone || bytes.Count(out.Tap, []byte("</stream:features>"))+bytes.Count(out.Tap, []byte("</features>"))+bytes.Count(out.Tap, []byte("<stream:features/>"))+bytes.Count(out.Tap, []byte(`streams"/>`))+bytes.Count(out.Tap, []byte(`streams"></features>`)) > seenLists
 				})
 				if sDone {
@@ -527,6 +538,13 @@ func runC01(rc *RC) {
 			rc.Evals["C01.c2"]++
 			round := e.lists
 			if sd.recv {
+				// … and "advertised" means that the list went out: by the time the feature has run, as many complete lists
+				// as the receiver believes to have sent are on the wire
+				tp := sd.conn.Conn.Out().Tap[:min(e.outLen, len(sd.conn.Conn.Out().Tap))]
+				onWire := bytes.Count(tp, []byte("</stream:features>")) + bytes.Count(tp, []byte("</features>")) + bytes.Count(tp, []byte("<stream:features/>")) + bytes.Count(tp, []byte(`streams"/>`)) + bytes.Count(tp, []byte(`streams'/>`))
+				if want := sd.logListsAt(i); onWire < want {
+					rc.Failf("C01.c2", "negotiated-before-list-on-wire:receiver", "receiver ran %s although only %d of the %d feature lists it produced had reached the wire (a write had failed)", e.ns, onWire, want)
+				}
 				round = sd.logListsAt(i)
 			}
 			if !adv[round][e.ns] && e.ns == nsTLS && !sd.recv && round == 1 && e.state&xmpp.Secure == 0 {
